@@ -460,6 +460,13 @@ func (e *Exec) lookup(s *State, x *ssa.Lookup) Value {
 	str := e.val(s, x.X).(*Node)
 	idx := e.toIdx(e.val(s, x.Index).(*Node), x.Index.Type())
 	e.bounds(s, And(e.ile(e.idx(0), idx), e.ilt(idx, e.strLen(str))), x.Pos(), "string index out of range")
+	if nativeStrings {
+		// byte i of a string as the code of its i-th character (exact for ASCII content; the
+		// validators under contract only compare against ASCII separators and dots)
+		v := App("str.to_code", "Int", App("str.at", "String", str, idx))
+		s.assume(e.ar.inRange(v, types.Typ[types.Uint8]))
+		return v
+	}
 	v := Select(e.strChars(str), idx)
 	if e.mode == ModeInt {
 		s.assume(e.ar.inRange(v, types.Typ[types.Uint8]))
